@@ -858,8 +858,13 @@ class Driver:
             users = sorted({row[1] for row in self.view().batches.values()})
             for u in users:
                 for ck in ('ready', 'creating', 'running'):
+                    burst = 0
                     while await self.step(force='cancel', user=u, ckind=ck):
                         did = True
+                        burst += 1
+                        if burst >= 200 or len(self.ops) > 4000:     # a broken routine may offer the same job for ever
+                            self.problems.append('no-quiescence')
+                            return False
             for kind in ('activate', 'worker', 'orphans'):
                 for _rep in range(3):
                     if await self.step(force=kind):
